@@ -197,9 +197,11 @@ def shape(specs):
     return ",".join(sorted(set(kinds)))
 
 
-def check_list(res, specs):
+def check_list(res, specs, tier="thorough"):
     f = fn_setup()
-    for t in eval_times(specs, STARTUP, f["loc"]):
+    # quick: unordered triples are evaluated on the startup day only, singles and pairs on all three days
+    days = DAYS if (tier == "thorough" or len(specs) < 3) else DAYS[:1]
+    for t in eval_times(specs, STARTUP, f["loc"], days=days):
         want = active(specs, t, STARTUP, f["loc"])
         got = impl_active(specs, t)
         case = {"part": "fn", "specs": specs, "now": t.isoformat()}
@@ -451,7 +453,7 @@ def run_shard(shard):
     if part == "fn":
         for i, specs in enumerate(lists(tier)):
             if i % n == k:
-                check_list(res, specs)
+                check_list(res, specs, tier)
         return res
     if part == "b1":
         for i, c in enumerate(b1_cases(tier)):
